@@ -52,42 +52,46 @@ comparison is an any-match and the order does not matter; two such lists compare
 are compared element by element (`reflect.DeepEqual`, pairwise loops), and the truth value is not a
 function of query and record.  Such queries are not judged. -/
 mutual
-  partial def multiPri : Primary → Bool
+  /-- can this operand be a list whose ORDER is not determined by query and record?  A plain path:
+      when evaluating it on the record enumerates an object with two or more members through a
+      wildcard or a descent (`Path.orderSensitive`; arrays are enumerated in document order).  A
+      json() selector with a descent: conservatively yes. -/
+  partial def multiPri (rec : Json) : Primary → Bool
     | .call ident _ sel jp _ =>
       (match jp with
-       | some p => p.any (fun f => f == Frag.wildcard || f == Frag.descent)
+       | some p => Path.orderSensitive p rec
        | none => (ident.splitOn "..").length > 1 || (ident.splitOn "*").length > 1) ||
       (match sel with
        | .mk _ _ rd _ _ => rd.isSome
        | .none => false)
-    | .sub e => riskExpr e   -- conservative
+    | .sub e => riskExpr rec e   -- conservative
     | _ => false
-  partial def multiUn : Unary → Bool
-    | .op _ u => multiUn u
-    | .pri p => multiPri p
+  partial def multiUn (rec : Json) : Unary → Bool
+    | .op _ u => multiUn rec u
+    | .pri p => multiPri rec p
   partial def headCmp : Comparison → Unary
     | .one u => u
     | .bin u _ _ => u
-  partial def riskCmp : Comparison → Bool
-    | .one u => riskUn u
-    | .bin u _ next => (multiUn u && multiUn (headCmp next)) || riskUn u || riskCmp next
-  partial def riskUn : Unary → Bool
-    | .op _ u => riskUn u
-    | .pri (.sub e) => riskExpr e
-    | .pri (.call _ _ (.mk _ _ _ true e) _ _) => riskExpr e
+  partial def riskCmp (rec : Json) : Comparison → Bool
+    | .one u => riskUn rec u
+    | .bin u _ next => (multiUn rec u && multiUn rec (headCmp next)) || riskUn rec u || riskCmp rec next
+  partial def riskUn (rec : Json) : Unary → Bool
+    | .op _ u => riskUn rec u
+    | .pri (.sub e) => riskExpr rec e
+    | .pri (.call _ _ (.mk _ _ _ true e) _ _) => riskExpr rec e
     | .pri _ => false
   partial def headEq : Equality → Comparison
     | .one c => c
     | .bin c _ _ => c
-  partial def riskEq : Equality → Bool
-    | .one c => riskCmp c
-    | .bin c _ next => (multiUn (headCmp c) && multiUn (headCmp (headEq next))) || riskCmp c || riskEq next
-  partial def riskLog : Logical → Bool
-    | .one e => riskEq e
-    | .bin e _ next => riskEq e || riskLog next
-  partial def riskExpr : Expr → Bool
+  partial def riskEq (rec : Json) : Equality → Bool
+    | .one c => riskCmp rec c
+    | .bin c _ next => (multiUn rec (headCmp c) && multiUn rec (headCmp (headEq next))) || riskCmp rec c || riskEq rec next
+  partial def riskLog (rec : Json) : Logical → Bool
+    | .one e => riskEq rec e
+    | .bin e _ next => riskEq rec e || riskLog rec next
+  partial def riskExpr (rec : Json) : Expr → Bool
     | .empty => false
-    | .mk l => riskLog l
+    | .mk l => riskLog rec l
 end
 
 def judgeEval (aspect : Aspect) (payload impl : String) : Verdict :=
@@ -98,7 +102,8 @@ def judgeEval (aspect : Aspect) (payload impl : String) : Verdict :=
     match exprOfSx astSx, Json.ofSx recSx with
     | some ast, some record =>
       let (m, unsup0) := observe ast record
-      let unsup := unsup0 || riskExpr ast
+      let pre := precompute ast
+      let unsup := unsup0 || riskExpr record pre.node
       let implSx := Sx.parse impl
       let q := (strOfSx? qSx).getD ""
       let astok := fieldIs implSx "astok" ["true"]
@@ -109,7 +114,7 @@ def judgeEval (aspect : Aspect) (payload impl : String) : Verdict :=
         { corr := true, implSpec := true, modelSpec := true, nontrivial := false, cls := "generator-ast-mismatch", model := "-", spec := "-" }
       else
         let corr := unsup || m.toStr == impl
-        let specTruth := if riskExpr ast then none else Spec.truth ast record
+        let specTruth := if riskExpr record pre.node then none else Spec.truth ast record
         let specLimit := Spec.limitOf astSx
         let check (obs : Option Sx) : Bool :=
           match aspect with
